@@ -308,6 +308,10 @@ def oracle(c):
                 return "%s with num_procs=%d failed: %s" % (c.data['scenario'], k, err)
             if got != ref:
                 return "%s: num_procs=%d gives a different result than num_procs=1" % (c.data['scenario'], k)
+        if c.data['scenario'] == 'voxelize':
+            r = json.loads(ref)
+            if all(v == r['default_tol'] for v in r['by_tol'].values()) and r['filled'] == r['default_tol']:
+                return "scenario sanity: no padding changes the set of filled voxels (the num_procs comparison would not see a dropped padding)"
         return None
     return None
 
